@@ -3,6 +3,7 @@ import Spec.C01
 import Proofs.IntLaw
 import Proofs.LitLaw
 import Proofs.Layout
+import Proofs.DateLaw2
 import Proofs.SplitJoin
 import Proofs.LineShape
 import Proofs.Renders
@@ -353,6 +354,89 @@ theorem readPos_written (fs : List Field) (vs : List Val) (rs : List (List Char)
           refine ⟨?_, ih vs _ (by simpa using hlen) hrest hrest2⟩
           rw [hb, ha.2.1]
 
+/-! ### dates -/
+
+/-- blanks are not a date in any non-empty format -/
+theorem blankLaw_date (fmts : List (List Char)) (hne : ∀ fm ∈ fmts, fm ≠ []) (n : Nat) : BlankLaw (.date fmts) n := by
+  simp only [BlankLaw, parseText, strip_replicate_blank, Option.map_eq_none_iff, List.findSome?_eq_none_iff]
+  intro fm hfm
+  exact Cfi.Date.strptime_nil fm (hne fm hfm)
+
+/-- what `fmtOk` gives -/
+theorem items_of_fmtOk (fmt : List Char) (h : Spec.C03.fmtOk fmt = true) :
+    ∃ items, Cfi.Date.parseFmt (fmt.length + 1) fmt = some items := by
+  unfold Spec.C03.fmtOk at h
+  cases hp : Cfi.Date.parseFmt (fmt.length + 1) fmt with
+  | none => simp [hp] at h
+  | some items => exact ⟨items, rfl⟩
+
+/-- the text `strftime` produces for a format that neither starts nor ends with
+white space has no white space at its ends -/
+theorem strip_strftime (fmt : List Char) (t : Cfi.Date.DT) (items : List Cfi.Date.Item) (p : List Char)
+    (hparse : Cfi.Date.parseFmt (fmt.length + 1) fmt = some items)
+    (hp : Cfi.Date.strftime (fmt.length + 1) fmt t = some p)
+    (hhead : isStripWs (fmt.headD ' ') = false) (hlast : isStripWs (fmt.getLastD ' ') = false) :
+    strip p = p := by
+  obtain ⟨p', h1, h2, h3⟩ := Cfi.Date.emits_of_parse t _ fmt items hparse
+  have : p' = p := by
+    have := h1 (fmt.length + 1) (by omega)
+    rw [hp] at this; exact (Option.some.inj this).symm
+  subst this
+  have hh : ∀ y, p'.head? = some y → isStripWs y = false := by
+    intro y hy
+    cases hf : fmt with
+    | nil =>
+      subst hf
+      simp only [Cfi.Date.parseFmt] at hparse
+      injection hparse with hparse; subst hparse
+      cases h2; simp at hy
+    | cons x r =>
+      subst hf
+      exact h3 x rfl (by simpa using hhead) y hy
+  have hl : ∀ y, p'.getLast? = some y → isStripWs y = false := by
+    intro y hy
+    cases hw : isStripWs y with
+    | false => rfl
+    | true =>
+      exfalso
+      have := Cfi.Date.emits_last t items p' h2 y hy hw
+      obtain ⟨x, hx, hxw⟩ := Cfi.Date.parse_last_ws _ fmt items hparse this
+      have : fmt.getLastD ' ' = x := by
+        rw [List.getLastD_eq_getLast?, hx]; rfl
+      rw [this, hxw] at hlast
+      exact absurd hlast (by simp)
+  have := stripBy_pad_left (p := isStripWs) 0 ' ' p' isStripWs_blank hh hl
+  simpa [strip] using this
+
+/-- **Dates**: a `datetime` written with the field's first format reads back as its
+truncation to that format, and re-rendering the truncation gives the same text
+— `strptime` after `strftime` with all the regex alternatives and backtracking
+of CPython's `_strptime`, for every format of the modelled directive set. -/
+theorem law_date (f : Field) (fmt : List Char) (fmts : List (List Char)) (t : Cfi.Date.DT)
+    (hk : f.kind = .date (fmt :: fmts)) (hgeo : f.stop = f.size + f.start)
+    (hok : Spec.C03.fmtOk fmt = true)
+    (hv : (truncDate fmt t).valid = true) (hy : 1000 ≤ (truncDate fmt t).y)
+    (hhead : isStripWs (fmt.headD ' ') = false) (hlast : isStripWs (fmt.getLastD ' ') = false)
+    (hfit : ∀ p, Cfi.Date.strftime (fmt.length + 1) fmt t = some p → p.length ≤ f.size) :
+    RenderLaw f (.date t) := by
+  obtain ⟨items, hparse⟩ := items_of_fmtOk fmt hok
+  obtain ⟨p, hp, hread, _⟩ := Cfi.Date.strptime_strftime fmt t items hparse hv hy
+  have hstrip := strip_strftime fmt t items p hparse hp hhead hlast
+  have hlen := hfit p hp
+  have hren : ∀ t', Cfi.Date.strftime (fmt.length + 1) fmt t' = some p →
+      renderText f (.date t') = .ok (ljust p f.size ' ') := by
+    intro t' ht'
+    simp [renderText, renderRaw, renderFull, hk, Val.isNull, ht', Option.elim, Except.map]
+  refine ⟨ljust p f.size ' ', ⟨hren t hp, by rw [length_ljust]; omega, hgeo⟩, ?_, ?_⟩
+  · simp only [parseText, hk, strip_ljust, hstrip, List.findSome?_cons, hread, canon, Val.isNull,
+      Bool.false_eq_true, if_false]
+    rfl
+  · have : canon f (.date t) (ljust p f.size ' ') = .date (truncDate fmt t) := by
+      simp [canon, hk, Val.isNull]
+    rw [this]
+    apply hren
+    rw [Cfi.Date.strftime_trunc fmt t items hparse]; exact hp
+
 /-! ### the read-back clause alone (no stability needed): all kinds but dates -/
 
 /-- the read half of the law: the rendering is `size` wide and parses to the
@@ -375,12 +459,13 @@ theorem readLaw_flt (f : Field) (x : Dbl) (dec : Nat) (fmt : Char) (sep : List C
   simp only [canon, Val.isNull, hn, Bool.false_eq_true, if_false, hk, parseText]
   cases Dbl.pyFloat (replace r sep ['.']) <;> rfl
 
-/-- **The read half of the law from the decidable domain guard**, for every field
-kind except dates: whatever `Spec.C01.fieldInDomain` admits (fitting values of
-the right type, canonical literals, one-character non-blank separators) obeys it.
-(`hbig`: `str(int)` is only defined below 4300 digits.) -/
-theorem readLaw_of_domain (f : Field) (v : Val) (h : fieldInDomain f v = true)
-    (hk : ∀ fmts, f.kind ≠ .date fmts) (hbig : ∀ n, v = .int n → n.natAbs < 10 ^ 4300) : ReadLaw f v := by
+/-- **The full law (read-back and stability) from the decidable domain guard**, for
+every admitted value except non-missing floats: integers, canonical literals,
+dates, and missing values of every kind. -/
+theorem renderLaw_of_domain (f : Field) (v : Val) (h : fieldInDomain f v = true)
+    (hdate : ∀ fmts, f.kind = .date fmts → v.isNull = true → ∀ fm ∈ fmts, fm ≠ [])
+    (hbig : ∀ n, v = .int n → n.natAbs < 10 ^ 4300)
+    (hflt : ∀ dec fmt sep, f.kind = .flt dec fmt sep → v.isNull = true) : RenderLaw f v := by
   simp only [fieldInDomain, Bool.and_eq_true, decide_eq_true_eq] at h
   obtain ⟨⟨hfits, _⟩, hkind⟩ := h
   have hfits' := hfits
@@ -388,12 +473,11 @@ theorem readLaw_of_domain (f : Field) (v : Val) (h : fieldInDomain f v = true)
   obtain ⟨⟨hgeo, htype⟩, hfit⟩ := hfits'
   by_cases hn : v.isNull = true
   · -- missing value
-    apply readLaw_of_renderLaw
     apply law_null f v hn hgeo
     cases hkd : f.kind with
     | lit => exact blankLaw_lit _
     | int => exact blankLaw_int _
-    | date fmts => exact absurd hkd (hk fmts)
+    | date fmts => exact blankLaw_date fmts (hdate fmts hkd hn) _
     | flt dec fmt sep =>
       simp only [hkd, Bool.and_eq_true] at hkind
       have hsep := hkind.1
@@ -406,12 +490,28 @@ theorem readLaw_of_domain (f : Field) (v : Val) (h : fieldInDomain f v = true)
       · exact absurd hsep (by simp)
   · have hn' : v.isNull = false := by simpa using hn
     cases hkd : f.kind with
-    | date fmts => exact absurd hkd (hk fmts)
+    | date fmts =>
+      cases v with
+      | date t =>
+        simp only [hkd, Bool.and_eq_true, List.all_eq_true] at hkind
+        obtain ⟨hall, hfirst⟩ := hkind
+        cases fmts with
+        | nil => simp at hfirst
+        | cons fmt fmts =>
+          simp only [Bool.and_eq_true, decide_eq_true_eq, Bool.not_eq_true'] at hfirst
+          obtain ⟨⟨⟨hv, hy⟩, hhead⟩, hlast⟩ := hfirst
+          apply law_date f fmt fmts t hkd hgeo (hall fmt (by simp)) hv hy hhead hlast
+          intro p hp
+          simpa [renderFull, hkd, Val.isNull, hp, Option.elim] using hfit
+      | none => simp [Val.isNull] at hn'
+      | nat => simp [Val.isNull] at hn'
+      | str s => simp [hkd, Spec.C02.typeOk] at htype
+      | int n => simp [hkd, Spec.C02.typeOk] at htype
+      | dbl x => cases x <;> simp_all [Spec.C02.typeOk, Val.isNull, Dbl.isNaN]
     | lit =>
       cases v with
       | str s =>
         simp only [hkd, Bool.and_eq_true, beq_iff_eq] at hkind
-        apply readLaw_of_renderLaw
         apply law_lit f s hkd hgeo
         · simpa [renderFull, hkd, Val.isNull] using hfit
         · exact ⟨_, hkind.2⟩
@@ -423,7 +523,6 @@ theorem readLaw_of_domain (f : Field) (v : Val) (h : fieldInDomain f v = true)
     | int =>
       cases v with
       | int n =>
-        apply readLaw_of_renderLaw
         apply law_int f n hkd hgeo _ (hbig n rfl)
         simpa [renderFull, hkd, Val.isNull] using hfit
       | none => simp [Val.isNull] at hn'
@@ -434,13 +533,48 @@ theorem readLaw_of_domain (f : Field) (v : Val) (h : fieldInDomain f v = true)
     | flt dec fmt sep =>
       cases v with
       | dbl x =>
-        apply readLaw_flt f x dec fmt sep hkd hfits
-        simpa [Val.isNull] using hn'
+        have := hflt dec fmt sep hkd
+        rw [this] at hn'; exact absurd hn' (by simp)
       | none => simp [Val.isNull] at hn'
       | nat => simp [Val.isNull] at hn'
       | str s => simp [hkd, Spec.C02.typeOk] at htype
       | int n => simp [hkd, Spec.C02.typeOk] at htype
       | date t => simp [hkd, Spec.C02.typeOk] at htype
+
+/-- **The read half of the law from the decidable domain guard**, for every field
+kind: whatever `Spec.C01.fieldInDomain` admits (fitting values of the right
+type, canonical literals, one-character non-blank separators, dates whose
+truncation to the first format is valid) obeys it.
+(`hbig`: `str(int)` is only defined below 4300 digits; `hdate`: a missing date
+reads back as missing when none of the field's formats is the empty string.) -/
+theorem readLaw_of_domain (f : Field) (v : Val) (h : fieldInDomain f v = true)
+    (hdate : ∀ fmts, f.kind = .date fmts → v.isNull = true → ∀ fm ∈ fmts, fm ≠ [])
+    (hbig : ∀ n, v = .int n → n.natAbs < 10 ^ 4300) : ReadLaw f v := by
+  by_cases hf : ∀ dec fmt sep, f.kind = .flt dec fmt sep → v.isNull = true
+  · exact readLaw_of_renderLaw (renderLaw_of_domain f v h hdate hbig hf)
+  · -- a non-missing float
+    have hex : ∃ dec fmt sep, f.kind = .flt dec fmt sep ∧ v.isNull = false := by
+      cases hkd : f.kind with
+      | flt dec fmt sep =>
+        refine ⟨dec, fmt, sep, rfl, ?_⟩
+        cases hn : v.isNull with
+        | false => rfl
+        | true => exact absurd (fun d fm sp _ => hn) hf
+      | lit => exact absurd (fun d fm sp e => by rw [hkd] at e; cases e) hf
+      | int => exact absurd (fun d fm sp e => by rw [hkd] at e; cases e) hf
+      | date _ => exact absurd (fun d fm sp e => by rw [hkd] at e; cases e) hf
+    obtain ⟨dec, fmt, sep, hkd, hn⟩ := hex
+    simp only [fieldInDomain, Bool.and_eq_true, decide_eq_true_eq] at h
+    have hfits := h.1.1
+    have htype := hfits
+    simp only [Spec.C02.fits, Bool.and_eq_true, beq_iff_eq] at htype
+    cases v with
+    | dbl x => exact readLaw_flt f x dec fmt sep hkd hfits (by simpa [Val.isNull] using hn)
+    | none => simp [Val.isNull] at hn
+    | nat => simp [Val.isNull] at hn
+    | str s => simp [hkd, Spec.C02.typeOk] at htype
+    | int n => simp [hkd, Spec.C02.typeOk] at htype
+    | date t => simp [hkd, Spec.C02.typeOk] at htype
 
 /-- **Read-back clause of C01** (`Spec.C01.holds`, second conjunct): for every
 positional layout of pairwise disjoint fields and values obeying the read half
@@ -527,11 +661,11 @@ theorem readBack_canon (fs : List Field) (vs : List Val) (w : List Char)
             rw [hb, ha.2, hc]
 
 /-- **C01 read-back, from the decidable domain**: for every layout and value list
-admitted by `Spec.C01.inDomain` that has no date field, the write succeeds and
-what is read back is, field by field, the canonical form (`Spec.C01.holds`,
-second conjunct) — integers, literals, floats and missing values. -/
+admitted by `Spec.C01.inDomain`, the write succeeds and what is read back is,
+field by field, the canonical form (`Spec.C01.holds`, second conjunct) —
+integers, literals, floats, dates and missing values. -/
 theorem readBack_of_inDomain (fs : List Field) (vs : List Val) (h : inDomain fs vs = true)
-    (hnodate : ∀ f ∈ fs, ∀ fmts, f.kind ≠ .date fmts)
+    (hdate : ∀ fv ∈ fs.zip vs, ∀ fmts, fv.1.kind = .date fmts → fv.2.isNull = true → ∀ fm ∈ fmts, fm ≠ [])
     (hbig : ∀ v ∈ vs, ∀ n, v = .int n → n.natAbs < 10 ^ 4300) :
     ∃ w, writePos fs vs = .ok w ∧
       readPos fs w = (fs.zip vs).map (fun fv => canon fv.1 fv.2 (slice w fv.1.start fv.1.stop)) := by
@@ -540,7 +674,7 @@ theorem readBack_of_inDomain (fs : List Field) (vs : List Val) (h : inDomain fs 
   have hlaw : ∀ fv ∈ fs.zip vs, ReadLaw fv.1 fv.2 := by
     intro fv hfv
     have hm := List.of_mem_zip hfv
-    exact readLaw_of_domain fv.1 fv.2 (hdom fv hfv) (hnodate fv.1 hm.1) (hbig fv.2 hm.2)
+    exact readLaw_of_domain fv.1 fv.2 (hdom fv hfv) (hdate fv hfv) (hbig fv.2 hm.2)
   have hD := Disjoint_of_bool' fs hdis
   have hfits : ∀ fv ∈ fs.zip vs, Spec.C02.fits fv.1 fv.2 = true := by
     intro fv hfv
